@@ -24,3 +24,23 @@ Theorem C15_property_name_only_with_the_option :
   /\ forallb (fun e => Nat.eqb (count_rname 60 (s2l "property") e) 0) forward_bodies = true.
 Proof. exact property_name_only_with_the_option. Qed.
 Print Assumptions C15_property_name_only_with_the_option.
+
+(* ---- semantics: with the option off no parse result carries properties ---- *)
+(* proofs/Names.v: [noname k n e] — the results name k is attached to no element under e; [names_sound] — then no result of running e
+   (for every fuel, input, action table) has the key k, by induction on the fuel through every combinator of PP.run (ParseResults
+   construction [wrap] adds at most the element's own name, [+=] only keys of its argument).  The name `property` occurs nowhere in the
+   grammar of the option off nor in a Forward body, so [properties_of] — the only place the build actions read arbitrary properties
+   from — is None for the result of the whole grammar and of every element under it. *)
+From PyDBML Require Import Actions Names.
+Theorem C15_no_parse_result_carries_properties_when_off :
+  noname PROPERTY 60 gen_top_off = true /\
+  forall act src f n doact e p cp p' r eff,
+    noname PROPERTY n e = true -> run gen_env act src f doact e p cp = POk p' r eff -> properties_of r = None.
+Proof. split; [exact no_property_name_off|exact no_properties_when_off]. Qed.
+Print Assumptions C15_no_parse_result_carries_properties_when_off.
+
+Theorem C15_results_names_are_those_of_the_grammar :
+  forall env act src k, (forall id body, env id = Some body -> exists n, noname k n body = true) ->
+  forall f n doact e p cp p' r eff, noname k n e = true -> run env act src f doact e p cp = POk p' r eff -> has_key r k = false.
+Proof. intros env act src k Henv f n doact e p cp p' r eff Hn H. exact (names_sound env act src k Henv f n doact e p cp Hn _ _ _ H). Qed.
+Print Assumptions C15_results_names_are_those_of_the_grammar.
